@@ -125,6 +125,8 @@ def cfgs_tier2():
     yield {"msgs": "orig_then_put_response"}
     yield {"msgs": "put_response_then_orig"}
     yield {"msgs": "orig_only"}
+    yield {"fsreq": True}
+    yield {"fsreq": True, "imm": False}
 
 
 def all_cases():
